@@ -19,9 +19,48 @@ def run(ctx):
     builder(ctx, "R3")
     query_argument(ctx, "R4")
     pathsplit(ctx, "R5")
+    protocol_laws(ctx, "R6")
     ctx.rule("R5s", "urlpathsplit / get_query_argument parse through safe_urlsplit, which keeps the url as it is exactly when PROTOCOL_RE matches at its start")
     from .common_url import rule_safe_urlsplit
     rule_safe_urlsplit(ctx, "R5s")
+
+
+def protocol_laws(ctx, rule):
+    ctx.rule(rule, "model table (the protocol laws as relations): ensure_protocol, force_protocol, strip_protocol, interpreted on {no protocol, '//', http://, HTTPS://, ftp://, custom://} x {host, host + path with an embedded url, host:port, userinfo, host followed by '//', empty rest} x {http, https://, ftp:, wss, custom, p://}: both are idempotent, force_protocol's result starts with the requested protocol and '://', neither changes what follows the protocol (strip_protocol of the result = strip_protocol of the input), force_protocol(u, p) = ensure_protocol(strip_protocol(u), p)")
+    from . import tables as TB
+    repo = ctx.repo
+    site = repo.mod("force_protocol").site(repo.mod("force_protocol").func("force_protocol").node)
+    prefixes = ["", "//", "http://", "HTTPS://", "ftp://", "custom://"]
+    rests = ["a.com", "a.com/x?u=http://b.org/y", "a.com:8080/x", "user:pw@a.com/x", "localhost//a", "a.com/x#//f", "xn--caf-dma.fr/\u00e9", ""]
+    protocols = ["http", "https://", "ftp:", "wss", "custom", "p://"]
+    E_ = lambda u, p: TB.call(repo, "ensure_protocol", "ensure_protocol", u, p)
+    F_ = lambda u, p: TB.call(repo, "force_protocol", "force_protocol", u, p)
+    S_ = lambda u: TB.call(repo, "strip_protocol", "strip_protocol", u)
+    n = 0
+    for pre in prefixes:
+        for rest in rests:
+            u = pre + rest
+            for p in protocols:
+                try:
+                    e, f, s0 = E_(u, p), F_(u, p), S_(u)
+                    name = p.rstrip(":/")
+                    problems = []
+                    if E_(e, p) != e:
+                        problems.append("ensure_protocol is not idempotent: %r then %r" % (e, E_(e, p)))
+                    if F_(f, p) != f:
+                        problems.append("force_protocol is not idempotent: %r then %r" % (f, F_(f, p)))
+                    if not (isinstance(f, str) and f.startswith(name + "://")):
+                        problems.append("force_protocol gives %r, which does not start with %r" % (f, name + "://"))
+                    if S_(e) != s0 or S_(f) != s0:
+                        problems.append("what follows the protocol changed: strip_protocol gives %r (ensured: %r, forced: %r)" % (s0, S_(e), S_(f)))
+                    if f != E_(s0, p):
+                        problems.append("force_protocol gives %r but ensure_protocol(strip_protocol(u)) gives %r" % (f, E_(s0, p)))
+                except Unknown as ex:
+                    ctx.undecided(rule, "protocol helpers on %r, %r: %s" % (u, p, ex))
+                    continue
+                n += 1
+                ctx.ob(rule, "laws/%r/%s" % (u, p), not problems, "for u = %r and protocol %r: %s" % (u, p, "; ".join(problems)), site, witness=u, sample="%r, %r -> ensure %r, force %r" % (u, p, e, f) if (pre, rest, p) == ("//", "a.com", "https://") else None)
+    ctx.require_instances(rule, n, len(prefixes) * len(rests) * len(protocols) - 6, "(url, protocol) cells")
 
 
 def protocol_language(ctx, rule):
